@@ -24,48 +24,271 @@ def sres_to_lin(x):
     return None
 
 
-def eval_method_rule(rep, facts, cls, reloc, rule):
-    """Hi.eval / Lo.eval return reloc(<value of the inner expression evaluated with the same position, env, line>)."""
+def _subst(term, mapping):
+    if isinstance(term, tuple):
+        if term in mapping:
+            return mapping[term]
+        return tuple(_subst(x, mapping) for x in term)
+    return term
+
+
+def _strip(v):
+    while isinstance(v, tuple) and v and v[0] == 'res':
+        v = v[3]
+    return v
+
+
+def eval_method_rule(rep, facts, cls, reloc, rule, others=()):
+    """Hi.eval / Lo.eval return reloc(<value of the wrapped expression evaluated with the same position, env, line>), on every path.
+    Decided on the symbolic return values of the method (pathwalk; locals, helper methods, class-level / module-level aliases of
+    the relocation function, keyword arguments and the name of the attribute holding the wrapped expression do not matter).  A
+    finding needs a return value that is positively something else: the other relocation, no relocation at all, another position /
+    environment; whatever is not followed ends without verdict."""
+    from ..packrule import function_paths, subterms
+    from ..pathwalk import show
     ci = facts.classes.get(cls)
     owner, m = facts.method(cls, 'eval') if ci is not None else (None, None)
     if m is None or any(d for d in m.decorator_list):
         raise AnalysisError('anchor vanished: {}.eval'.format(cls))
-    me = m.args.args[0].arg if m.args.args else 'self'
+    a = m.args
+    if a.vararg or a.kwarg or a.kwonlyargs or a.posonlyargs or len(a.args) != 4:
+        raise AnalysisError('{}.eval: signature is not (self, position, env, line)'.format(cls))
+    me = ('name', a.args[0].arg)
+    params = [('name', x.arg) for x in a.args[1:]]
+    # the attribute that holds the wrapped expression: the one __init__ stores its (only) operand parameter into
+    iparams = [p for p, _ in facts.init_params(cls)]
+    order = facts.attr_order_detailed(cls) if hasattr(facts, 'attr_order_detailed') else [(x, y, 'identity') for x, y in facts.full_attr_order(cls)]
+    holders = [attr for attr, src, how in order if iparams and src == iparams[0] and how == 'identity']
+    if len(iparams) != 1 or len(holders) != 1 or not facts.init_understood(cls):
+        raise AnalysisError('{}: which attribute holds the wrapped expression is not understood (constructor parameters {})'.format(cls, iparams))
+    inner_attr = ('attr', me, holders[0])
+    # the signature the inner call is matched against: Expr.eval(self, position, env, line) of the base class (keyword names)
+    _, base_eval = facts.method('Expr', 'eval') if 'Expr' in facts.classes else (None, None)
+    kwnames = [x.arg for x in (base_eval or m).args.args[1:]]
+    relocs = {reloc} | set(others)
 
-    def callee(func):
-        """Name of the function a call in eval() reaches: a plain name, or `self.<attr>` / `type(self).<attr>` where the class (or a
-        base) binds <attr> = staticmethod(f) / f at class level (a shared eval() in a base class, the relocation named per subclass)."""
-        d = dotted(func)
-        if d and '.' not in d:
-            return d
-        if isinstance(func, ast.Attribute) and (unparse(func.value) in (me, 'type({})'.format(me), me + '.__class__')):
-            for c in facts.mro(cls):
-                for st in facts.classes[c].node.body:
-                    if isinstance(st, ast.Assign) and any(isinstance(t, ast.Name) and t.id == func.attr for t in st.targets):
-                        v = st.value
-                        if isinstance(v, ast.Call) and dotted(v.func) == 'staticmethod' and len(v.args) == 1:
-                            v = v.args[0]
-                        return v.id if isinstance(v, ast.Name) else None
+    def alias_of(name, depth=0):
+        """module-level `name = f` (a second name for a function): the function's name"""
+        st = facts.assign_nodes.get(name)
+        if depth < 4 and name not in facts.funcs and isinstance(st, ast.Assign) and isinstance(st.value, ast.Name):
+            return alias_of(st.value.id, depth + 1)
+        return name
+
+    def class_member(attr):
+        for c in facts.mro(cls):
+            cnode = facts.classes[c].node
+            for st in cnode.body:
+                if isinstance(st, ast.FunctionDef) and st.name == attr:
+                    return st
+                if isinstance(st, ast.Assign) and any(isinstance(t, ast.Name) and t.id == attr for t in st.targets):
+                    return st.value
         return None
-    params = [a.arg for a in m.args.args][1:]
-    rets = [n for n in ast.walk(m) if isinstance(n, ast.Return)]
-    defs = {}
+
+    def resolve(v, depth=0):
+        """Normal form of a returned value: ('reloc', function name, argument) | ('inner', args, kwargs) | the term itself."""
+        v = _strip(v)
+        if not isinstance(v, tuple) or not v or depth > 6:
+            return v
+        if v[0] == 'call' and len(v[2]) == 1 and not v[3] and v[2][0][0] != 'star':
+            fn = alias_of(v[1])
+            if fn in facts.funcs:
+                return ('reloc', fn, resolve(v[2][0], depth + 1))
+        if v[0] == 'mcall' and _strip(v[1]) in (me, ('call', 'type', (me,), ()), ('attr', me, '__class__')):
+            member = class_member(v[2])
+            if isinstance(member, ast.FunctionDef):
+                deco = [dotted(d) for d in member.decorator_list]
+                if deco in ([], ['staticmethod']) and not v[4] and not any(x[0] == 'star' for x in v[3]):
+                    margs = member.args.args if deco else member.args.args[1:]
+                    if len(margs) == len(v[3]) and not (member.args.vararg or member.args.kwarg or member.args.kwonlyargs):
+                        _, mpaths = function_paths(facts, member)
+                        rets = [p.events[-1][1] for p in mpaths if p.end == 'return' and p.events and p.events[-1][0] == 'return']
+                        if len(rets) == 1 and len(mpaths) == 1:
+                            mapping = {('name', x.arg): y for x, y in zip(margs, v[3])}
+                            if not deco:
+                                mapping[('name', member.args.args[0].arg)] = me
+                            return resolve(_subst(_strip(rets[0]), mapping), depth + 1)
+            elif member is not None:
+                if isinstance(member, ast.Call) and dotted(member.func) == 'staticmethod' and len(member.args) == 1:
+                    member = member.args[0]
+                if isinstance(member, ast.Name) and len(v[3]) == 1 and not v[4]:
+                    fn = alias_of(member.id)
+                    if fn in facts.funcs:
+                        return ('reloc', fn, resolve(v[3][0], depth + 1))
+        if v[0] == 'mcall' and _strip(v[1]) == inner_attr and v[2] == 'eval':
+            if any(x[0] == 'star' for x in v[3]) or any(n is None for n, _ in v[4]):
+                return v
+            bound = dict(zip(kwnames, v[3]))
+            for n, x in v[4]:
+                if n in bound or n not in kwnames:
+                    return v
+                bound[n] = x
+            if set(bound) == set(kwnames):
+                return ('inner', tuple(_strip(bound[k]) for k in kwnames))
+        return v
+
+    def semantic(why):
+        """The method computes its result in a way the path rule does not follow (the relocation inlined, another helper): its body
+        is evaluated as arithmetic over the value of the wrapped expression.  A counterexample on the sample inputs is a finding, a
+        proof by linear forms a pass, anything else no verdict."""
+        spec = R.hi_spec if reloc == 'relocate_hi' else R.lo_spec
+        pnames = [x.arg for x in a.args[1:]]
+
+        def is_inner(node):
+            return (isinstance(node, ast.Call) and isinstance(node.func, ast.Attribute) and node.func.attr == 'eval'
+                    and unparse(node.func.value) == '{}.{}'.format(me[1], holders[0]) and not node.keywords
+                    and [unparse(x) for x in node.args] == pnames)
+        try:
+            cex = R.counterexample(facts, m.body, lambda x: {'__v': x}, spec, call_hook=lambda node, env: env['__v'] if is_inner(node) else None)
+        except R.NotConcrete:
+            cex = 'unknown'
+        if cex is not None and cex != 'unknown':
+            rep.fail(Finding(rule, cls + '.eval', 'counterexample',
+                             '{}.eval does not compute {} of the inner value: for an inner value of {} it returns {} ({})'.format(
+                                 cls, reloc, hex(cex[0]) if cex[0] >= 0 else cex[0], cex[1], cex[2]), line=m.lineno))
+            return
+        # no counterexample: try to prove it
+        interp = R.Interp(facts)
+        v = R.Lin.v()
+        interp.call_hook = lambda node: v if is_inner(node) else None
+        try:
+            res = interp.block(list(m.body), {}, cls + '.eval', 0)
+            X, mod, lo_, hi_ = R.congruence_and_range(res)
+            if reloc == 'relocate_hi':
+                want = R.shift_right(v, 12) + R.Lin({11: 1}, 0)
+                ok = (mod is None or mod >= 20) and (X - want).congruent_zero(20) and lo_ is not None and lo_ >= -(1 << 19) and hi_ <= (1 << 19) - 1
+            else:
+                ok = (mod is None or mod >= 12) and (X - v).congruent_zero(12) and lo_ is not None and lo_ >= -2048 and hi_ <= 2047
+        except AnalysisError:
+            ok = None
+        if ok:
+            rep.ok(rule, '{}.eval computes {} of the inner value (arithmetic proved over all integers)'.format(cls, reloc))
+            return
+        raise AnalysisError(why)
+
+    _, paths = function_paths(facts, m)
+    rets = [p for p in paths if p.end == 'return']
+    if not rets:
+        raise AnalysisError('{}.eval: no returning path found'.format(cls))
+    try:
+        _judge_paths(rep, rets, resolve, cls, reloc, relocs, params, rule, m, show, subterms)
+    except _NotFollowed as e:
+        semantic(str(e))
+
+
+class _NotFollowed(AnalysisError):
+    pass
+
+
+def _judge_paths(rep, rets, resolve, cls, reloc, relocs, params, rule, m, show, subterms):
+    AnalysisError = _NotFollowed        # noqa: F841  (what the path rule does not follow is handed to the semantic fallback)
+    for p in rets:
+        if not p.events or p.events[-1][0] != 'return':
+            raise AnalysisError('{}.eval: a path returns a value the walk does not follow'.format(cls))
+        node = p.events[-1][-1]
+        val = resolve(p.events[-1][1])
+        bad = None
+        if isinstance(val, tuple) and val and val[0] == 'inner':
+            bad = 'returns the value of the wrapped expression without applying {}'.format(reloc)
+        elif isinstance(val, tuple) and val and val[0] == 'reloc':
+            fn, arg = val[1], val[2]
+            if fn != reloc:
+                if fn not in relocs or not (isinstance(arg, tuple) and arg and arg[0] == 'inner'):
+                    # another function / the other relocation of something else: the arithmetic decides (semantic fallback)
+                    raise AnalysisError('{}.eval: applies {} to {}'.format(cls, fn, show(_strip(p.events[-1][1]))[:60]))
+                bad = 'applies {} instead of {}'.format(fn, reloc)
+            elif isinstance(arg, tuple) and arg and arg[0] == 'inner':
+                if list(arg[1]) != params:
+                    # a different position / environment is a finding only when it is written in terms of the parameters
+                    atoms = {t for x in arg[1] for t in subterms(x) if t[0] == 'name'}
+                    if atoms <= set(params) and all(t[0] in ('name', 'bin', 'const', 'un') for x in arg[1] for t in subterms(x)):
+                        bad = 'evaluates the wrapped expression with ({}) instead of ({})'.format(
+                            ', '.join(show(x) for x in arg[1]), ', '.join(show(x) for x in params))
+                    else:
+                        raise AnalysisError('{}.eval: arguments of the inner evaluation are not followed: {}'.format(
+                            cls, ', '.join(show(x) for x in arg[1])[:80]))
+            else:
+                raise AnalysisError('{}.eval: the argument of {} is not the evaluation of the wrapped expression: {}'.format(
+                    cls, reloc, show(_strip(p.events[-1][1]))[:80]))
+        else:
+            raise AnalysisError('{}.eval: the returned value {} is not followed'.format(cls, show(_strip(p.events[-1][1]))[:80]))
+        rep.check(bad is None, rule, '{}.eval == {}(inner.eval(position, env, line))'.format(cls, reloc),
+                  lambda bad=bad, node=node: Finding(rule, cls + '.eval', node if isinstance(node, ast.AST) else m,
+                                                     '{}.eval {}: it does not return {} of the inner expression evaluated at the same '
+                                                     'position/env'.format(cls, bad, reloc), line=getattr(node, 'lineno', m.lineno)))
+
+
+WORD_SAMPLES = [0, 1, 0x7ff, 0x800, 0x801, 0xfff, 0x1000, 0x7ffff7ff, 0x7ffff800, 0x7fffffff, 0x80000000, 0x800007ff, 0x80000800, 0xfffff7ff, 0xfffff800,
+                0xffffffff, -1, -0x7ff, -0x800, -0x801, -0x1000, -0x7ffff800, -0x80000000]
+
+
+class _FoldWord(ast.NodeTransformer):
+    """c_uint32(x).value / c_int32(x).value of a constant x, so that astutil.fold can finish the job."""
+
+    def visit_Attribute(self, node):
+        self.generic_visit(node)
+        if node.attr == 'value' and isinstance(node.value, ast.Call) and dotted(node.value.func) in ('c_uint32', 'ctypes.c_uint32', 'c_int32', 'ctypes.c_int32') \
+                and len(node.value.args) == 1 and isinstance(node.value.args[0], ast.Constant) and isinstance(node.value.args[0].value, int):
+            v = node.value.args[0].value & 0xffffffff
+            if dotted(node.value.func).endswith('c_int32') and v & 0x80000000:
+                v -= 1 << 32
+            return ast.copy_location(ast.Constant(value=v), node)
+        return node
+
+
+def total_eval_rule(rep, facts, cls, rule):
+    """%hi / %lo are defined for every 32-bit value (the property quantifies over all 2^32 of them, in every spelling): an eval()
+    that raises for one of them refuses a valid operand.  Every `raise` in the method is examined under the tests that guard it,
+    with the inner value bound to boundary values of the 32-bit range (a witness is a disproof; guards that cannot be folded give
+    no verdict)."""
+    import copy
+    from ..astutil import fold, NotConstant
+    owner, m = facts.method(cls, 'eval')
+    if m is None:
+        raise AnalysisError('anchor vanished: {}.eval'.format(cls))
+    inner = None
     for n in ast.walk(m):
-        if isinstance(n, ast.Assign) and len(n.targets) == 1 and isinstance(n.targets[0], ast.Name):
-            defs.setdefault(n.targets[0].id, []).append(n.value)
+        if isinstance(n, ast.Assign) and len(n.targets) == 1 and isinstance(n.targets[0], ast.Name) and isinstance(n.value, ast.Call) \
+                and isinstance(n.value.func, ast.Attribute) and n.value.func.attr == 'eval':
+            inner = n.targets[0].id
+    raises = [n for n in ast.walk(m) if isinstance(n, ast.Raise)]
+    if not raises:
+        rep.ok(rule, '{}.eval never refuses a value'.format(cls), nontrivial=False)
+        return
+    for r in raises:
+        guards = []
+        cur = r
+        par = getattr(cur, '_parent', None)
+        while par is not None and par is not m:
+            if isinstance(par, ast.If):
+                guards.append((par.test, cur in par.body or any(cur is x or cur in ast.walk(x) for x in par.body)))
+            elif isinstance(par, (ast.Try, ast.ExceptHandler, ast.For, ast.While, ast.With)):
+                raise AnalysisError('{}.eval raises inside a {}: when it refuses a value is not understood'.format(cls, type(par).__name__))
+            cur, par = par, getattr(par, '_parent', None)
+        if inner is None or not guards:
+            raise AnalysisError('{}.eval contains a raise whose condition is not understood'.format(cls))
+        witness = None
+        for v in WORD_SAMPLES:
+            try:
+                fires = True
+                for test, in_body in guards:
+                    t2 = copy.deepcopy(test)
 
-    def is_inner_eval(e):
-        if isinstance(e, ast.Name) and len(defs.get(e.id, [])) == 1:
-            e = defs[e.id][0]
-        return (isinstance(e, ast.Call) and isinstance(e.func, ast.Attribute) and e.func.attr == 'eval'
-                and unparse(e.func.value) == 'self.expr' and [unparse(a) for a in e.args] == params and not e.keywords)
-
-    ok = (len(rets) == 1 and isinstance(rets[0].value, ast.Call) and callee(rets[0].value.func) == reloc
-          and len(rets[0].value.args) == 1 and is_inner_eval(rets[0].value.args[0]))
-    rep.check(ok, rule, '{}.eval == {}(inner.eval(position, env, line))'.format(cls, reloc),
-              lambda: Finding(rule, cls + '.eval', rets[0] if rets else m,
-                              '{}.eval does not return {} of the inner expression evaluated at the same position/env'.format(cls, reloc),
-                              line=m.lineno))
+                    class Sub(ast.NodeTransformer):
+                        def visit_Name(self, n):
+                            return ast.copy_location(ast.Constant(value=v), n) if n.id == inner else n
+                    t2 = _FoldWord().visit(Sub().visit(t2))
+                    val = bool(fold(t2))
+                    if val != in_body:
+                        fires = False
+                        break
+            except NotConstant:
+                raise AnalysisError('{}.eval: the condition under which it refuses a value ({}) cannot be evaluated on constants'.format(cls, unparse(guards[0][0])[:60]))
+            if fires:
+                witness = v
+                break
+        rep.check(witness is None, rule, '{}.eval accepts every boundary value of the 32-bit range'.format(cls),
+                  lambda r=r, witness=witness: Finding(rule, cls + '.eval', r, '{}.eval refuses the 32-bit value {:#x}: {} of every 32-bit value is defined and fits its field'.format(
+                      cls, witness & 0xffffffff, '%' + cls.lower()), line=r.lineno))
 
 
 def run(repo, tier):
@@ -78,134 +301,194 @@ def run(repo, tier):
                  'identities, valid for every integer v.  Ranges are compared with the accepted sets derived for lui/auipc and '
                  'every I/S-type consumer (C01 summaries); Hi/Lo.eval and parse_immediate are followed by def-use.')
     rep.trusted_base = ['CPython ast', 'bbverif.relocdom linear-form arithmetic', 'bbverif.bitdom (accepted sets of the consumers)']
-    v = R.Lin.v()
-    interp = R.Interp(facts)
-    try:
-        lo_regions = interp.call_regions('relocate_lo', [v])
-        hi_regions = interp.call_regions('relocate_hi', [v])
-    except R.Unsupported as e:
-        raise AnalysisError('construct outside the %hi/%lo arithmetic fragment: {}'.format(e))
-    rep.count('functions interpreted', 3)
-    rep.analysed['input regions (lo x hi)'] = len(lo_regions) * len(hi_regions)
-    lo_line = facts.funcs['relocate_lo'].lineno
-    hi_line = facts.funcs['relocate_hi'].lineno
-    want_hi0 = R.shift_right(v, 12) + R.Lin({11: 1}, 0)
+    from ..encprops import attempt as at
 
-    def restrict(lin, subst):
-        for atom, val in subst.items():
-            lin = lin.subst(atom, val)
-        return lin
-    v0 = v
-    for lreg, lsub, lo in lo_regions:
-        v = restrict(v0, lsub)
-        L, ml, llo, lhi = R.congruence_and_range(lo)
-        where = '' if lreg == 'all v' else ' for ' + lreg
-        rep.sample({'relocate_lo': {'region': lreg, 'form': repr(L), 'modulus_bits': ml, 'range': [llo, lhi]}})
-        # (a) lo == v mod 2^12, range
-        rep.check((ml is None or ml >= 12) and (L - v).congruent_zero(12), 'R7.lo-congruent', 'relocate_lo(v) == v (mod 2^12)' + where,
-                  lambda L=L, where=where: Finding('R7.lo-congruent', 'relocate_lo', 'congruence' + where, '%lo(v) is not congruent to v modulo 2^12{}: %lo(v) = {}'.format(where, L), line=lo_line))
-        rep.check(llo is not None and llo >= -2048 and lhi is not None and lhi <= 2047, 'R7.lo-range', 'relocate_lo(v) in [-2048, 2047]' + where,
-                  lambda llo=llo, lhi=lhi, where=where: Finding('R7.lo-range', 'relocate_lo', 'range' + where, '%lo(v) ranges over [{}, {}]{}, not a signed 12-bit value'.format(llo, lhi, where), line=lo_line))
-    for hreg, hsub, hi in hi_regions:
-        v = restrict(v0, hsub)
-        want_hi = restrict(want_hi0, hsub)
-        H, mh, hlo, hhi = R.congruence_and_range(hi)
-        where = '' if hreg == 'all v' else ' for ' + hreg
-        rep.sample({'relocate_hi': {'region': hreg, 'form': repr(H), 'modulus_bits': mh, 'range': [hlo, hhi]}})
-        # (b) hi == (v >> 12) + v[11] mod 2^20, range
-        rep.check((mh is None or mh >= 20) and (H - want_hi).congruent_zero(20), 'R7.hi-congruent', 'relocate_hi(v) == (v >> 12) + v[11] (mod 2^20)' + where,
-                  lambda H=H, mh=mh, where=where: Finding('R7.hi-congruent', 'relocate_hi', 'congruence' + where,
-                                                          '%hi(v) == {} (mod 2^{}){}, expected (v >> 12) + bit11(v) (mod 2^20)'.format(H, mh, where), line=hi_line))
-        rep.check(hlo is not None and hlo >= -(1 << 19) and hhi is not None and hhi <= (1 << 19) - 1, 'R7.hi-range', 'relocate_hi(v) in [-2^19, 2^19-1]' + where,
-                  lambda hlo=hlo, hhi=hhi, where=where: Finding('R7.hi-range', 'relocate_hi', 'range' + where, '%hi(v) ranges over [{}, {}]{}, not a signed 20-bit value'.format(hlo, hhi, where), line=hi_line))
-        # (c) (hi << 12) + lo == v mod 2^32  (lo taken from the unsplit / every lo region: lo does not depend on hi's regions)
+    def arithmetic():
+        v = R.Lin.v()
+        interp = R.Interp(facts)
+        regions = {}
+        for fname, spec, rule in (('relocate_lo', R.lo_spec, 'R7.lo-congruent'), ('relocate_hi', R.hi_spec, 'R7.hi-congruent')):
+            try:
+                regions[fname] = interp.call_regions(fname, [v])
+            except R.Unsupported as e:
+                # outside the linear-form fragment: nothing is proved; a counterexample on the sample inputs still is a finding
+                regions[fname] = []
+                fdef = facts.funcs[fname]
+                params = [a_.arg for a_ in fdef.args.args]
+                try:
+                    cex = R.counterexample(facts, fdef.body, lambda x: {params[0]: x}, spec) if len(params) == 1 else None
+                except R.NotConcrete:
+                    cex = None
+                if cex is not None:
+                    rep.fail(Finding(rule, fname, 'counterexample', '{}({}) == {}: {}'.format(fname, hex(cex[0]) if cex[0] >= 0 else cex[0], cex[1], cex[2]),
+                                     line=fdef.lineno))
+                else:
+                    rep.undecided('construct outside the %hi/%lo arithmetic fragment: {}'.format(e))
+        lo_regions, hi_regions = regions['relocate_lo'], regions['relocate_hi']
+        rep.count('functions interpreted', 3)
+        rep.analysed['input regions (lo x hi)'] = len(lo_regions) * len(hi_regions)
+        lo_line = facts.funcs['relocate_lo'].lineno
+        hi_line = facts.funcs['relocate_hi'].lineno
+        want_hi0 = R.shift_right(v, 12) + R.Lin({11: 1}, 0)
+
+        def restrict(lin, subst):
+            for atom, val in subst.items():
+                lin = lin.subst(atom, val)
+            return lin
+        v0 = v
         for lreg, lsub, lo in lo_regions:
-            if set(lsub) & set(hsub) and any(lsub[k] != hsub[k] for k in set(lsub) & set(hsub)):
-                continue      # disjoint regions
-            lo_lin = sres_to_lin(lo)
-            if lo_lin is None:
-                rep.fail(Finding('R7.rebuild', 'relocate_lo', 'exactness', '%lo(v) is only known as a residue; (hi << 12) + lo cannot equal v for all v', line=lo_line))
+            v = restrict(v0, lsub)
+            L, ml, llo, lhi = R.congruence_and_range(lo)
+            where = '' if lreg == 'all v' else ' for ' + lreg
+            rep.sample({'relocate_lo': {'region': lreg, 'form': repr(L), 'modulus_bits': ml, 'range': [llo, lhi]}})
+            # (a) lo == v mod 2^12, range
+            rep.check((ml is None or ml >= 12) and (L - v).congruent_zero(12), 'R7.lo-congruent', 'relocate_lo(v) == v (mod 2^12)' + where,
+                      lambda L=L, where=where: Finding('R7.lo-congruent', 'relocate_lo', 'congruence' + where, '%lo(v) is not congruent to v modulo 2^12{}: %lo(v) = {}'.format(where, L), line=lo_line))
+            rep.check(llo is not None and llo >= -2048 and lhi is not None and lhi <= 2047, 'R7.lo-range', 'relocate_lo(v) in [-2048, 2047]' + where,
+                      lambda llo=llo, lhi=lhi, where=where: Finding('R7.lo-range', 'relocate_lo', 'range' + where, '%lo(v) ranges over [{}, {}]{}, not a signed 12-bit value'.format(llo, lhi, where), line=lo_line))
+        for hreg, hsub, hi in hi_regions:
+            v = restrict(v0, hsub)
+            want_hi = restrict(want_hi0, hsub)
+            H, mh, hlo, hhi = R.congruence_and_range(hi)
+            where = '' if hreg == 'all v' else ' for ' + hreg
+            rep.sample({'relocate_hi': {'region': hreg, 'form': repr(H), 'modulus_bits': mh, 'range': [hlo, hhi]}})
+            # (b) hi == (v >> 12) + v[11] mod 2^20, range
+            rep.check((mh is None or mh >= 20) and (H - want_hi).congruent_zero(20), 'R7.hi-congruent', 'relocate_hi(v) == (v >> 12) + v[11] (mod 2^20)' + where,
+                      lambda H=H, mh=mh, where=where: Finding('R7.hi-congruent', 'relocate_hi', 'congruence' + where,
+                                                              '%hi(v) == {} (mod 2^{}){}, expected (v >> 12) + bit11(v) (mod 2^20)'.format(H, mh, where), line=hi_line))
+            rep.check(hlo is not None and hlo >= -(1 << 19) and hhi is not None and hhi <= (1 << 19) - 1, 'R7.hi-range', 'relocate_hi(v) in [-2^19, 2^19-1]' + where,
+                      lambda hlo=hlo, hhi=hhi, where=where: Finding('R7.hi-range', 'relocate_hi', 'range' + where, '%hi(v) ranges over [{}, {}]{}, not a signed 20-bit value'.format(hlo, hhi, where), line=hi_line))
+            # (c) (hi << 12) + lo == v mod 2^32  (lo taken from the unsplit / every lo region: lo does not depend on hi's regions)
+            for lreg, lsub, lo in lo_regions:
+                if set(lsub) & set(hsub) and any(lsub[k] != hsub[k] for k in set(lsub) & set(hsub)):
+                    continue      # disjoint regions
+                lo_lin = sres_to_lin(lo)
+                if lo_lin is None:
+                    # nothing is known to be wrong: the closed form of %lo(v) is a residue whose sign bit is not a single input bit, so
+                    # the identity cannot be stated as a coefficient identity (no verdict; a violation found elsewhere is still reported)
+                    rep.undecided('relocate_lo: %lo(v) is only known as a residue ({}); the identity (hi << 12) + lo == v is not decided'.format(lo))
+                    continue
+                both = dict(lsub)
+                both.update(hsub)
+                total = restrict(H.scale(1 << 12) + lo_lin - v0, both)
+                good = (mh is None or mh + 12 >= 32) and total.congruent_zero(32)
+                rep.check(good, 'R7.rebuild', '(relocate_hi(v) << 12) + relocate_lo(v) == v (mod 2^32)' + (where or ' for every integer v'),
+                          lambda total=total, mh=mh, where=where: Finding('R7.rebuild', 'relocate_hi', 'identity' + where,
+                                                                          '(%hi(v) << 12) + %lo(v) - v == {}{} which is not 0 modulo 2^32 (hi known modulo 2^{})'.format(total, where, mh),
+                                                                          line=hi_line))
+
+    at(rep, arithmetic)
+
+    def consumers():
+        # (d) ranges fit the consumers
+        sums = all_summaries(facts)
+        n = 0
+        from .. import oracle
+        from ..encsum import summary_of
+        for m in facts.instructions():
+            if m not in oracle.RV32:
                 continue
-            both = dict(lsub)
-            both.update(hsub)
-            total = restrict(H.scale(1 << 12) + lo_lin - v0, both)
-            good = (mh is None or mh + 12 >= 32) and total.congruent_zero(32)
-            rep.check(good, 'R7.rebuild', '(relocate_hi(v) << 12) + relocate_lo(v) == v (mod 2^32)' + (where or ' for every integer v'),
-                      lambda total=total, mh=mh, where=where: Finding('R7.rebuild', 'relocate_hi', 'identity' + where,
-                                                                      '(%hi(v) << 12) + %lo(v) - v == {}{} which is not 0 modulo 2^32 (hi known modulo 2^{})'.format(total, where, mh),
-                                                                      line=hi_line))
-    # (d) ranges fit the consumers
-    sums = all_summaries(facts)
-    n = 0
-    for m, s in sums.items():
-        spec_kind = None
-        if s.encoder in ('u_type',):
-            spec_kind = ('hi', -(1 << 19), (1 << 19) - 1)
-        elif s.encoder in ('i_type', 'ij_type', 's_type') and 'imm' in s.params:
-            spec_kind = ('lo', -2048, 2047)
-        if spec_kind is None:
-            continue
-        info = derived_operand(s, 'imm')
-        if info is None:
-            continue
-        n += 1
-        cells = canon(info['cells'])
-        which, a, b = spec_kind
-        mult = max(c[3] for c in cells) if cells else 1
-        covered = any(c[0] <= a and c[1] >= b - (c[3] - 1) and c[2] == 0 for c in cells)
-        if m == 'jalr' and mult == 2:
-            # documented restriction: even offsets only; %lo of an odd value is refused, never wrapped
-            rep.note('jalr refuses odd %lo values (documented 12-bit MO2 operand)')
-        rep.check(covered, 'R7.fits', '{}: %{} range within accepted set {}'.format(m, which, show_cells(cells)),
-                  lambda m=m, which=which, cells=cells: Finding('R7.fits', s.encoder + ':' + m, 'range',
-                                                                '{} does not accept the whole range of %{}: accepted {}'.format(m, which, show_cells(cells)),
-                                                                line=facts.funcs[s.encoder].lineno))
-    rep.count('consumer encoders compared', n)
+            s = summary_of(rep, sums, m)
+            if s is None:
+                continue
+            # the consumers are named by the ISA format of the mnemonic (oracle), not by the name of the function that encodes it:
+            # U-format upper immediates take %hi, the 12-bit immediates of the I / S formats take %lo
+            spec_kind = None
+            fmt = oracle.RV32_FORMAT.get(m)
+            spec = oracle.RV32.get(m)
+            if spec is None or fmt not in ('U', 'I', 'S'):
+                continue
+            if len(spec['operands']) != len(s.params):
+                continue            # pre-bound / special-syntax forms (ecall, fence): no immediate operand to write %lo into
+            imm_params = [p_ for p_, op in zip(s.params, spec['operands']) if op['kind'] == 'imm' and op['role'] == 'imm']
+            if len(imm_params) != 1:
+                continue
+            spec_kind = ('hi', -(1 << 19), (1 << 19) - 1) if fmt == 'U' else ('lo', -2048, 2047)
+            info = derived_operand(s, imm_params[0])
+            if info is None:
+                raise AnalysisError('{}: the immediate operand {} is not interpreted by the encoder summary'.format(m, imm_params[0]))
+            n += 1
+            cells = canon(info['cells'])
+            which, a, b = spec_kind
+            mult = max(c[3] for c in cells) if cells else 1
+            covered = any(c[0] <= a and c[1] >= b - (c[3] - 1) and c[2] == 0 for c in cells)
+            if m == 'jalr' and mult == 2:
+                # documented restriction: even offsets only; %lo of an odd value is refused, never wrapped
+                rep.note('jalr refuses odd %lo values (documented 12-bit MO2 operand)')
+            rep.check(covered, 'R7.fits', '{}: %{} range within accepted set {}'.format(m, which, show_cells(cells)),
+                      lambda m=m, which=which, cells=cells: Finding('R7.fits', s.encoder + ':' + m, 'range',
+                                                                    '{} does not accept the whole range of %{}: accepted {}'.format(m, which, show_cells(cells)),
+                                                                    line=getattr(facts.funcs.get(s.encoder), 'lineno', None)))
+        rep.count('consumer encoders compared', n)
+
+    at(rep, consumers)
     # (e) expression nodes and parser
-    eval_method_rule(rep, facts, 'Hi', 'relocate_hi', 'R7.eval')
-    eval_method_rule(rep, facts, 'Lo', 'relocate_lo', 'R7.eval')
-    arms, els = chain_outcomes(facts, 'parse_immediate', 'imm')
-    want = {'%hi': 'Hi', '%lo': 'Lo'}
-    seen = {}
-    pfn = facts.funcs['parse_immediate']
-    from ..wiring import admits
-    every = [o for key, test, outs in arms for o in outs] + list(els or [])
-    for mod in want:
-        for o in every:
-            # the outcomes a line whose first operand token is this modifier can take (dispatch-independent: elif chain, merged
-            # arms with the class picked by a conditional expression, table lookup)
-            if o.kind != 'return' or o.cls not in ('Hi', 'Lo', 'Arithmetic', 'Position', 'Offset') or not admits(facts, o.path, mod):
-                continue
-            if o.cls in ('Arithmetic', 'Position', 'Offset') and any(f[0] == 'eq' and f[2] and f[1] != mod for f in o.path.head_facts):
-                continue
-            pf = o.path.paren_form() if hasattr(o.path, 'paren_form') else None
-            paren = pf if isinstance(pf, bool) else any("'('" in c[0] and c[1] for c in o.path.conds)
-            inner = ('imm', ('rest', 2, 1)) if paren else ('imm', ('rest', 1, 0))
-            positively = any(f[0] == 'eq' and f[2] and f[1] == mod for f in o.path.head_facts) or \
-                any(f[0] == 'in' and f[2] for f in o.path.head_facts)
-            if not positively and o.cls not in ('Hi', 'Lo'):
-                continue           # the catch-all arm: reached by a modifier only if no arm claims it (reported below)
-            ok = o.cls == want[mod] and o.args == [inner]
-            seen[(mod, paren)] = seen.get((mod, paren), True) and ok
-            rep.check(ok, 'R7.parse', '{} {} form -> {}(parse_immediate(rest))'.format(mod, 'parenthesised' if paren else 'bare', want[mod]),
-                      lambda o=o, mod=mod: Finding('R7.parse', 'parse_immediate', o.node,
-                                                   '{} is parsed into {}({}) instead of {} of the nested immediate'.format(mod, o.cls, o.args, want[mod]),
-                                                   line=o.node.lineno))
-    for k in [('%hi', True), ('%hi', False), ('%lo', True), ('%lo', False)]:
-        if k not in seen:
-            rep.fail(Finding('R7.parse', 'parse_immediate', '{} {}'.format(*k), 'no parse path for {} ({} form)'.format(k[0], 'paren' if k[1] else 'bare'), line=pfn.lineno))
-    rep.count('parse_immediate paths', len(seen))
+    at(rep, eval_method_rule, rep, facts, 'Hi', 'relocate_hi', 'R7.eval', others=('relocate_lo',))
+    at(rep, eval_method_rule, rep, facts, 'Lo', 'relocate_lo', 'R7.eval', others=('relocate_hi',))
+    def parser():
+        arms, els = chain_outcomes(facts, 'parse_immediate', 'imm')
+        want = {'%hi': 'Hi', '%lo': 'Lo'}
+        seen = {}
+        pfn = facts.funcs['parse_immediate']
+        from ..wiring import admits
+        every = [o for key, test, outs in arms for o in outs] + list(els or [])
+        for mod in want:
+            for o in every:
+                # the outcomes a line whose first operand token is this modifier can take (dispatch-independent: elif chain, merged
+                # arms with the class picked by a conditional expression, table lookup)
+                if o.kind != 'return' or o.cls not in ('Hi', 'Lo', 'Arithmetic', 'Position', 'Offset') or not admits(facts, o.path, mod):
+                    continue
+                if o.cls in ('Arithmetic', 'Position', 'Offset') and any(f[0] == 'eq' and f[2] and f[1] != mod for f in o.path.head_facts):
+                    continue
+                positively = any(f[0] == 'eq' and f[2] and f[1] == mod for f in o.path.head_facts) or \
+                    any(f[0] == 'in' and f[2] for f in o.path.head_facts)
+                if not positively and o.cls not in ('Hi', 'Lo'):
+                    continue           # the catch-all arm: reached by a modifier only if no arm claims it (reported below)
+                if not positively:
+                    # a relocation node built on a path that never positively tested the modifier: the test that guards it was not
+                    # read (str.lower(imm[0]), a helper predicate ...); judging it for every modifier would be guessing
+                    raise AnalysisError('parse_immediate: the condition under which {} is built is not understood ({})'.format(
+                        o.cls, o.cond_text()[-80:]))
+                pf = o.path.paren_form()
+                if pf is None:
+                    raise AnalysisError('parse_immediate: a path building {} rests on a condition about the operand tokens that is not '
+                                        'modelled ({}): bare or parenthesised form is not decided'.format(o.cls, o.path.unknown_conds[0][:60]))
+                paren = pf
+                inner = ('imm', ('rest', 2, 1)) if paren else ('imm', ('rest', 1, 0))
+                # the node's operand: positional or by keyword
+                cparams = [p_ for p_, _ in facts.init_params(o.cls)] if o.cls in facts.classes else []
+                given = dict(zip(cparams, o.args))
+                given.update({k_: v_ for k_, v_ in o.kwargs.items() if k_ in cparams and k_ not in given})
+                operand = given.get(cparams[0]) if cparams else None
+                if len(o.args) + len(o.kwargs) != 1 or operand is None:
+                    raise AnalysisError('parse_immediate: how {} is constructed is not understood: {}({}, {})'.format(o.cls, o.cls, o.args, o.kwargs))
+                if operand != inner and not (operand[0] == 'imm' and operand[1][0] in ('rest', 'list', 'tok')):
+                    raise AnalysisError('parse_immediate: the operand handed to {} is not followed: {}'.format(o.cls, operand))
+                ok = o.cls == want[mod] and operand == inner
+                seen[(mod, paren)] = seen.get((mod, paren), True) and ok
+                rep.check(ok, 'R7.parse', '{} {} form -> {}(parse_immediate(rest))'.format(mod, 'parenthesised' if paren else 'bare', want[mod]),
+                          lambda o=o, mod=mod: Finding('R7.parse', 'parse_immediate', o.node,
+                                                       '{} is parsed into {}({}) instead of {} of the nested immediate'.format(mod, o.cls, o.args, want[mod]),
+                                                       line=o.node.lineno))
+        for k in [('%hi', True), ('%hi', False), ('%lo', True), ('%lo', False)]:
+            if k not in seen:
+                rep.fail(Finding('R7.parse', 'parse_immediate', '{} {}'.format(*k), 'no parse path for {} ({} form)'.format(k[0], 'paren' if k[1] else 'bare'), line=pfn.lineno))
+        rep.count('parse_immediate paths', len(seen))
+
+    at(rep, parser)
     # (f) pairing of the halves built by the pseudo-instruction pass
-    IS.check_lo_pairing(rep, facts, 'R7.lo-width', 'R7.guard-fits', 'R7.hi-lo-pair')
+    at(rep, IS.check_lo_pairing, rep, facts, 'R7.lo-width', 'R7.guard-fits', 'R7.hi-lo-pair')
+    for cls_ in ('Hi', 'Lo'):
+        at(rep, total_eval_rule, rep, facts, cls_, 'R7.total')
     # the auipc + jalr pair rebuilds its target only if both halves are %hi / %lo of the *same* value: every site that evaluates
     # the jalr half does so relative to the auipc, and nothing is added to the result afterwards (%lo(v + c) != %lo(v) + c)
-    IS.check_auipc(rep, facts, 'R7.auipc-adjust', 'R7.auipc-sibling')
+    at(rep, IS.check_auipc, rep, facts, 'R7.auipc-adjust', 'R7.auipc-sibling')
     # ... and both halves are evaluated where they stand: the stored operand is the value evaluated at the item's own final
     # offset against the final tables (a memo keyed by the expression text hands the second far call the halves of the first)
     from .. import labelrules as LB
-    LB.check_L4(rep, facts, 'R7.final')
+    at(rep, LB.check_L4, rep, facts, 'R7.final')
     rep.floor('%lo constructions examined', 5)
-    rep.floor('consumer encoders compared', 20)
+    rep.floor('consumer encoders compared', 17)
     rep.floor('parse_immediate paths', 4)
     rep.not_decided = ['consumer pairs written by the user (lui + lw) are covered through (a)-(d) only']
     return rep
